@@ -46,12 +46,17 @@ type Sub struct {
 	OnHook func(peer.ID, cid.Cid)
 	// OnWriteOpen: called whenever the subscriber opens a writer of the destination store (may block)
 	OnWriteOpen func()
+	libHook     dagsync.BlockHookFunc
 }
 
 // NewSub builds the destination link system and the subscriber. withRecv adds an announce receiver (no libp2p host: direct announcements only).
 func NewSub(w *World, withRecv bool, opts ...dagsync.Option) (*Sub, error) {
 	s := &Sub{W: w, data: map[string][]byte{}, failAt: -1}
 	s.Lsys = cidlink.DefaultLinkSystem()
+	s.Lsys.TrustedStorage = w.TrustedStorage
+	if w.LibraryHook {
+		s.libHook = dagsync.MakeGeneralBlockHook(func(ad cid.Cid) (cid.Cid, error) { return s.NextOf(ad), nil })
+	}
 	s.Lsys.StorageReadOpener = func(_ ipld.LinkContext, l ipld.Link) (io.Reader, error) {
 		s.mu.Lock()
 		defer s.mu.Unlock()
@@ -123,6 +128,11 @@ func (s *Sub) hook(p peer.ID, c cid.Cid, act dagsync.SegmentSyncActions) {
 		act.FailSync(fmt.Errorf("hook failure injected at call %d", ord))
 		return
 	}
+	if s.libHook != nil {
+		// the library's own general hook decides the next segment (from the same "previous" lookup)
+		s.libHook(p, c, act)
+		return
+	}
 	act.SetNextSyncCid(s.NextOf(c))
 }
 
@@ -168,10 +178,16 @@ func (s *Sub) ScopedCalls() []HookCall {
 	return append([]HookCall(nil), s.Scoped...)
 }
 
+// SetOnHook installs a callback run inside every call of the general hook (nil removes it).
+func (s *Sub) SetOnHook(f func(peer.ID, cid.Cid)) { s.mu.Lock(); s.OnHook = f; s.mu.Unlock() }
+
 // ArmHook resets the hook ordinal; failAt < 0 disables the injected failure.
 func (s *Sub) ArmHook(failAt int) { s.mu.Lock(); s.hookOrd, s.failAt = 0, failAt; s.mu.Unlock() }
 
 func (s *Sub) Has(c cid.Cid) bool { s.mu.Lock(); defer s.mu.Unlock(); _, ok := s.data[c.KeyString()]; return ok }
+
+// Get returns the stored bytes of a block (nil if absent).
+func (s *Sub) Get(c cid.Cid) []byte { s.mu.Lock(); defer s.mu.Unlock(); return append([]byte(nil), s.data[c.KeyString()]...) }
 
 // Put pre-stores a block in the destination store.
 func (s *Sub) Put(c cid.Cid, b []byte) { s.mu.Lock(); s.data[c.KeyString()] = append([]byte(nil), b...); s.mu.Unlock() }
